@@ -127,6 +127,7 @@ func (h *Header) decode(data []byte) error {
 	h.TerminalPhoneNo = utils.Bcd2Dec(h.bcdTerminalPhoneNo)
 	h.SerialNumber = binary.BigEndian.Uint16(data[start+phoneLen : start+phoneLen+2])
 	end := start + phoneLen + 2
+	h.SubPackageSum, h.SubPackageNo = 0, 0 // 不分包的时候是0 复用同一个对象解析时不能沿用上一次的值
 	if h.Property.isSubPackage {
 		if len(data) < start+phoneLen+6 {
 			return protocol.ErrHeaderLength2Short
